@@ -38,6 +38,10 @@ def run_property(prop: str, tier: str, program: Program | None = None, write: bo
     them says nothing about the program)."""
     seed = int(os.environ.get("VERIF_SEED", "0") or 0)
     prog = program or Program()
+    if os.environ.get("OPTYX_VIEW_ONLY"):       # debugging aid: decide on the normalised view alone
+        from .normalise import inlined_view
+
+        prog = inlined_view(prog) or prog
     code, rep = _run_view(prop, tier, prog, seed)
     if os.environ.get("OPTYX_SHOW_VIEWS"):
         print(f"-- view as written: exit {code}")
